@@ -2,7 +2,7 @@
 from common_tb import COMMON_TB
 
 CFG = dict(
-    id="C19", tie="Tie.C19", n_quick=36, n_thorough=200, thorough_seeds=3, gen_timeout=2400,
+    id="C19", tie="Tie.C19", n_quick=80, n_thorough=200, thorough_seeds=3, gen_timeout=2400,
     rule="a case is one HISTORY on the real document.Engine (store in a temp dir): random collection schema (2-5 typed "
          "fields INTEGER/DOUBLE/STRING/BOOLEAN/UUID incl. nested paths a.x, a.y.z, p.q.r.s, custom id field name; 0-2 "
          "indexes of 1-2 columns, some unique), then 12-41 random operations: InsertDocuments (1-3 documents: nested "
@@ -23,20 +23,22 @@ CFG = dict(
          "Each history (ops + observed ids / revisions / counts / errors) is replayed through the Coq model "
          "(Tie.C19.case_ok). A direct finding is attributed to a known cause only when the result IS what that cause "
          "predicts (re-evaluation with int64 truncation / NULL late columns) or the narrow input feature is present. "
-         "Scripted witness histories of every known finding run first on every run. Three facts about the code are "
-         "probed on the real engine at the start of every run and handed to the model as `flags` (float keys keep the "
-         "sign of zero; INTEGER fields reject non-integral numbers; the unique check reads only the first key), so the "
-         "check follows the repairs proposed for C15 / C19 / C12 without edits. Non-trivial: histories with at "
+         "Scripted witness histories of every known AND every fixed finding run first on every run (a fixed one that "
+         "comes back is a VIOLATION: the probes `{n:0.5} into an INTEGER field must be rejected` and `insert 20, "
+         "delete, insert 20, insert 20 must conflict` report by themselves, and the model -- which is the repaired "
+         "code -- disagrees). One fact about the code is still probed and handed to the model: whether the float key "
+         "encoder gives -0.0 and +0.0 different keys (s_nz). Non-trivial: histories with at "
          "least one successful write and one search returning a document; distinct by full history content.",
     trusted_base=COMMON_TB + [
-        "modelled (coq/Doc/Model.v): structValueToSqlValue per field type incl. int64(float64) as compiled on amd64 "
-        "(truncation; 0x8000000000000000 when out of range), field paths (SplitN 3), row = (column id, value) written at "
+        "modelled (coq/Doc/Model.v): structValueToSqlValue per field type (INTEGER: only numbers with an exact int64 "
+        "representation, else an error), field paths (SplitN 3), row = (column id, value) written at "
         "upsert time, VARCHAR(512) limit, document id hex, google/uuid text forms, query translation (DNF groups, "
         "constants converted by column type), TypedValue.Compare with NULL lowest, selectorRanges / refineWith / "
         "extendWith, index choice (selectSortingIndex, selectINLJIndex), inclusive key-range pruning on the chosen "
         "index, ORDER BY, offset then limit (0 = none), insert / replace (id injection) / delete over per-key version "
-        "lists, revision = history count, audit paging, the unique check of doUpsert (first key under the value prefix; "
-        "tombstone => admitted), CreateIndex/AddField/RemoveField/DeleteIndex bookkeeping",
+        "lists, revision = history count, audit paging, the unique check of doUpsert (any live entry under the value "
+        "prefix; own unchanged tuple reusable; an earlier document of the same operation with the tuple conflicts), "
+        "CreateIndex(unique) only on a collection without live documents, AddField/RemoveField/DeleteIndex bookkeeping",
         "index keys are modelled by their ORDER only (cv_kcmp: value order, except -0.0 < +0.0 while the real encoder "
         "gives them different keys; the flag is probed on sql.EncodeValueAsKey / EncodeRawValueAsKey on every run); that "
         "the byte encodings realise this order is property C15",
@@ -49,7 +51,6 @@ CFG = dict(
         "(the property text does not fix the meaning of a comparison with a missing field)",
     ],
     assumptions=[
-        "amd64 semantics of Go's float64->int64 conversion",
         "the harness waits for indexing after every write (the engine's reads through stale snapshots belong to C04/C06)",
     ],
 )
